@@ -7,22 +7,8 @@ use rv::*;
 use serde_json::{json, Value};
 use std::collections::BTreeMap;
 
-// TEMPORARY inline stub until src/bin/c03/hist.rs lands
-mod hist {
-    pub struct HistOutcome {
-        pub histories: u64,
-        pub frames_compared: u64,
-        pub oracle_checks: u64,
-        pub violations: Vec<rv::OracleViolation>,
-        pub distribution: std::collections::BTreeMap<String, u64>,
-        pub samples: Vec<serde_json::Value>,
-        pub emitted_lines: Vec<String>,
-        pub notes: Vec<String>,
-    }
-    pub fn run_histories(_seed: u64, _n: usize, _max_lines: usize) -> HistOutcome {
-        HistOutcome { histories: 0, frames_compared: 0, oracle_checks: 0, violations: vec![], distribution: Default::default(), samples: vec![], emitted_lines: vec![], notes: vec!["histories not wired yet".into()] }
-    }
-}
+#[path = "c03/hist.rs"]
+mod hist;
 
 // ---------------------------------------------------------------- ordered JSON AST (numbers = token text)
 #[derive(Clone, Debug, PartialEq)]
